@@ -5,8 +5,9 @@
 -/
 import MpirProofs.Lemmas.IoStream
 import MpirProofs.Props.C17
+import MpirProofs.Props.C13_str
 namespace Mpir.Io
-open Mpir Mpir.MpfStr
+open Mpir Mpir.MpfStr Mpir.Mpf Mpir.Radix
 
 /-! ## 1. Text round trip -/
 
@@ -109,6 +110,106 @@ example : (mpf_out_str {} 10 [45, 49, 50, 51, 52, 53] 5).2.out = [45, 48, 46, 49
 example : (mpf_out_str {} 16 [49] 11).2.out = [48, 46, 49, 64, 49, 49] ∧
     parse (-16) [48, 46, 49, 64, 49, 49] = some ⟨false, 16, [0, 1], 1, 11⟩ ∧
     parse 16 [48, 46, 49, 64, 49, 49] = some ⟨false, 16, [0, 1], 1, 17⟩ := by decide +kernel
+
+/-- `mpf_integer_roundtrip_exact`: the mpf round trip gives back the operand EXACTLY when it can: if `u` holds the
+    integer `±N` within the reach of `mpf_get_str`'s exact branch (hypotheses of C13 `get_digits_integer_exact`: N has
+    no more digits than are worked to, no limb is cut, the power of the base is not truncated) and the digits, the
+    power of the base and `N` are representable in the destination's precision (hypotheses of C13
+    `convert_exact_if_fits`), then `mpf_inp_str (mpf_out_str (u, base, nd), rbase)` — `rbase` reading a decimal
+    exponent — returns the same byte count and stores a value equal to `u`. -/
+theorem mpf_integer_roundtrip_exact (base : Int) (hb : (2 ≤ base ∧ base ≤ 62) ∨ (-36 ≤ base ∧ base ≤ -2))
+    (nd : Nat) (u dst : Mpf.F) (rbase : Int) (ws : List Nat)
+    (hr : rbase = -(base.natAbs : Int) ∨ (base.natAbs = 10 ∧ (rbase = 10 ∨ rbase = 0)))
+    (hws : ∀ c, ws.head? = some c → isspace c = true)
+    (hp : 1 ≤ dst.prec)
+    -- the operand holds the integer N > 0, within the reach of mpf_get_str's exact branch (C13 get_digits_integer_exact)
+    (N : Nat) (hN : 0 < N)
+    (hlen : (u.d.length : Int) ≤ u.exp)
+    (hval : N = val u.d * B ^ (u.exp - (u.d.length : Int)).toNat)
+    (hun : u.d.length ≤ nLimbsNeeded base.natAbs (effDigits base.natAbs u.prec (if nd = 0 then maxDigits base.natAbs u.prec else nd)))
+    (hexp : u.exp ≤ (nLimbsNeeded base.natAbs (effDigits base.natAbs u.prec (if nd = 0 then maxDigits base.natAbs u.prec else nd)) : Int))
+    (hpow : base.natAbs ^ (Radix.mulTrunc (64 * ((nLimbsNeeded base.natAbs (effDigits base.natAbs u.prec (if nd = 0 then maxDigits base.natAbs u.prec else nd)) : Int) - u.exp).toNat)
+        (Radix.cpbeBits base.natAbs)) < B ^ nLimbsNeeded base.natAbs (effDigits base.natAbs u.prec (if nd = 0 then maxDigits base.natAbs u.prec else nd)))
+    (hdig : (digitsOf base.natAbs N).length ≤ effDigits base.natAbs u.prec (if nd = 0 then maxDigits base.natAbs u.prec else nd))
+    -- and digits, power and value are representable in the destination (C13 convert_exact_if_fits)
+    (fM : Fits ((ofDigits base.natAbs (stripTrailingZeros (digitsOf base.natAbs N)) : Nat) : ℚ) (PREC_TO_BITS dst.prec))
+    (fb : Fits (((base.natAbs ^ ((digitsOf base.natAbs N).length - (stripTrailingZeros (digitsOf base.natAbs N)).length) : Nat)) : ℚ)
+            (PREC_TO_BITS dst.prec))
+    (fv : Fits (N : ℚ) (PREC_TO_BITS dst.prec)) :
+    (mpf_inp_str_rd dst ((mpf_out_str_obj {} base nd u).2.out ++ ws) rbase).1 = (mpf_out_str_obj {} base nd u).1.toNat ∧
+    toQ (mpf_inp_str_rd dst ((mpf_out_str_obj {} base nd u).2.out ++ ws) rbase).2.1
+      = (if u.size < 0 then -1 else 1) * (N : ℚ) ∧
+    toQ u = (if u.size < 0 then -1 else 1) * (N : ℚ) := by
+  have hb2 : 2 ≤ base.natAbs := by omega
+  set b := base.natAbs with hbdef
+  obtain ⟨_, _, hf⟩ := str_stream_roundtrip base hb [] (by intro c hc; simp at hc)
+  obtain ⟨c1, _, c3⟩ := hf nd u dst rbase ws hr hws
+  rw [c3]
+  have hg := get_digits_integer_exact b (if nd = 0 then maxDigits b u.prec else nd) u hb2 N hN hlen hval hun hexp hpow hdig
+  simp only
+  rw [hg]
+  simp only
+  set ds := stripTrailingZeros (digitsOf b N) with hds
+  set L := (digitsOf b N).length with hL
+  obtain ⟨s1, _, s3, _, _⟩ := strip_spec b (by omega) (digitsOf b N) (L : Int)
+  rw [← hds] at s1 s3
+  have hbq : (b : ℚ) ≠ 0 := by
+    have : (0 : ℚ) < (b : ℚ) := by exact_mod_cast (show 0 < b by omega)
+    exact this.ne'
+  -- mantissa · b^j = N
+  have hmv : (ofDigits b ds : ℚ) * (b : ℚ) ^ ((L : Int) - (ds.length : Int)) = (N : ℚ) := by
+    have := s1
+    rw [digVal_digitsOf b hb2 N] at this
+    unfold digVal at this
+    rw [this, ← hL]; simp
+  set p : Parsed := ⟨decide (u.size < 0), b, 0 :: ds, ds.length, (L : Int)⟩ with hpdef
+  have hmant : p.mant = ofDigits b ds := by
+    simp only [hpdef, Parsed.mant, ofDigits_cons]; simp
+  have hscale : p.scale = (L : Int) - (ds.length : Int) := rfl
+  have hsnat : p.scale.natAbs = L - ds.length := by rw [hscale]; omega
+  have hvalue : p.value = sgn (decide (u.size < 0)) * (N : ℚ) := by
+    unfold Parsed.value
+    rw [hmant, hscale, mul_assoc, hmv]
+  have hM : p.mant ≠ 0 := by
+    rw [hmant]; intro h0
+    rw [h0] at hmv
+    have : (N : ℚ) = 0 := by rw [← hmv]; simp
+    have : N = 0 := by exact_mod_cast this
+    omega
+  have hsg : sgn (decide (u.size < 0)) = (if u.size < 0 then (-1 : ℚ) else 1) := by
+    unfold sgn; by_cases h : u.size < 0 <;> simp [h]
+  have hconv := convert_exact_if_fits dst.prec hp p (by show 1 ≤ b; omega) hM
+    (by rw [hmant]; exact fM) (by rw [hsnat]; exact fb)
+    (by
+      rw [hvalue]
+      rcases sgn_cases (decide (u.size < 0)) with h | h
+      · rw [h, one_mul]; exact fv
+      · rw [h]; have := fits_neg fv; simpa using this)
+  refine ⟨?_, ?_, ?_⟩
+  · rw [c1]; simp
+  · rw [hconv, hvalue, hsg]
+  · unfold toQ
+    rw [hval]
+    have hk : u.exp - (u.d.length : Int) = (((u.exp - (u.d.length : Int)).toNat : Nat) : Int) := by omega
+    rw [hk, zpow_natCast]
+    push_cast
+    rw [← hk]
+    ring
+
+
+-- non-vacuity: 12500 in a 64-bit mpf, base 10, all digits ("0.125e5"), read back with base -10 into 64 bits
+example : toQ (mpf_inp_str_rd ⟨2, 0, 0, []⟩ ((mpf_out_str_obj {} 10 0 ⟨2, 1, 1, [12500]⟩).2.out ++ [10]) (-10)).2.1
+    = toQ (⟨2, 1, 1, [12500]⟩ : Mpf.F) := by
+  have e1 : ofDigits (10 : Int).natAbs (stripTrailingZeros (digitsOf (10 : Int).natAbs 12500)) = 125 := by decide +kernel
+  have e2 : (10 : Int).natAbs ^ ((digitsOf (10 : Int).natAbs 12500).length
+      - (stripTrailingZeros (digitsOf (10 : Int).natAbs 12500)).length) = 100 := by decide +kernel
+  have h := mpf_integer_roundtrip_exact 10 (Or.inl ⟨by decide, by decide⟩) 0 ⟨2, 1, 1, [12500]⟩ ⟨2, 0, 0, []⟩ (-10) [10]
+    (Or.inl rfl) (by decide) (by decide) 12500 (by norm_num) (by decide) (by decide +kernel) (by decide +kernel)
+    (by decide +kernel) (by decide +kernel) (by decide +kernel)
+    (by rw [e1]; exact ⟨125, 0, by norm_num, by norm_num [PREC_TO_BITS]⟩)
+    (by rw [e2]; exact ⟨25, 2, by norm_num, by norm_num [PREC_TO_BITS]⟩)
+    ⟨3125, 2, by norm_num, by norm_num [PREC_TO_BITS]⟩
+  rw [h.2.1, h.2.2]
 
 /-- `str_stream_roundtrip_base0`: base 0 on both sides — `mpz_out_str` / `mpq_out_str` / `mpf_out_str` write in
     decimal, `mpz_inp_str` / `mpq_inp_str` with base 0 detect the prefix ("0x", "0b", "0") — gives the same round
